@@ -160,3 +160,45 @@ func VP_C08_blockentity() {
 	be.ReadFrom(bytes.NewReader(vp.Bytes(n)))
 	vp.Cover("end")
 }
+
+// an otherwise valid chunk whose light section is inconsistent: masks naming
+// k sections with fewer (or more) arrays following, arrays of the wrong size,
+// empty masks - an error or a value, never a panic.
+func VP_C08_chunk_light() {
+	vp.SizeBound(16)
+	c := EmptyChunk(2)
+	base := EmptyChunk(2)
+	var full bytes.Buffer
+	_, _ = base.WriteTo(&full)
+	var ld bytes.Buffer
+	_, _ = (&lightData{
+		SkyLightMask:   make(pk.BitSet, (16*16*16-1)>>6+1),
+		BlockLightMask: make(pk.BitSet, (16*16*16-1)>>6+1),
+		SkyLight:       []pk.ByteArray{},
+		BlockLight:     []pk.ByteArray{},
+	}).WriteTo(&ld)
+	prefix := full.Bytes()[:full.Len()-ld.Len()]
+	// hand-written light section: four one-long masks with arbitrary low bits,
+	// then two arrays of byte arrays with arbitrary counts and small sizes
+	var s []byte
+	for i := 0; i < 4; i++ {
+		nl := 0
+		if i < 2 {
+			nl = vp.Choice(2) // the sky and block masks: absent, or one long
+		}
+		s = append(s, byte(nl))
+		if nl == 1 {
+			s = append(s, 0, 0, 0, 0, 0, 0, 0, vp.Byte()&0x0f)
+		}
+	}
+	for i := 0; i < 2; i++ {
+		cnt := vp.Choice(4)
+		s = append(s, byte(cnt))
+		for k := 0; k < cnt; k++ {
+			s = append(s, 1, vp.Byte())
+		}
+	}
+	_, err := c.ReadFrom(bytes.NewReader(append(append([]byte{}, prefix...), s...)))
+	_ = err
+	vp.Cover("end")
+}
